@@ -93,6 +93,12 @@ func c04(r *core.Run) {
 		r.Rule("R12", "no queued request is dropped or handled twice inside a group (shared with C02.Q1 / Q2): a work item's callback queue is only ever tail-appended with the submitted callback and read by len / index in the drain loop, whose counter starts at 0, is compared with the re-loaded length and advances by one per call; a drain that re-slices the queue while callbacks are still being read from its backing array lets a later append overwrite a pending request's callback (never answered) with another one (answered twice)", 6)
 		c02GroupQueue(r, "R12", sa, root)
 		c02Drain(r, "R12", sa)
+		r.Rule("R15", "one set of subscriptions (shared with C09.S10): the subscribing function is called only from serve's start-up sequence - subscribing again in the reconnect handler doubles every subscription (the client replays them itself), and without a queue group every request is then answered once per copy", 1)
+		if sub := subscribeFn(p); sub != nil {
+			c09SubscribesOnlyAtStartUp(r, "R15", sub)
+		} else {
+			r.Unres("R15", "subscribe", "not resolved")
+		}
 		r.Rule("R14", "replies survive a reconnect: the library never configures its own connection to refuse publishes while the client is reconnecting - no nats.ReconnectBufSize with a negative constant (in nats.go a negative size is no buffer: every Publish made while reconnecting fails, and reply only logs the error after marking the request as replied), no negative constant stored to Options.ReconnectBufSize, and no nats.NoReconnect", 1)
 		c04ConnectionKeepsBuffering(r, "R14")
 		r.Rule("R13", "somebody answers (shared with C03.S4): the number of workers serve starts is at least one - every store to the worker-count member writes a positive constant or a value tested to be positive; with zero workers every request is queued and never handled", 2)
@@ -628,12 +634,23 @@ func callersComplete(m *replyModel, root []*ssa.Function, fn *ssa.Function) bool
 		caller := c.Parent()
 		res := m.flow(caller, core.StateSet(0).Add(stNo))
 		for _, ret := range core.Returns(caller) {
-			if st := res.Before[ret]; !st.Empty() && !st.Only(stYes) {
+			if st := res.Before[ret]; !st.Empty() && !st.Only(stYes) && !onNoReplySubjectEdge(ret) {
 				return false
 			}
 		}
 	}
 	return n > 0
+}
+
+// onNoReplySubjectEdge: the instruction runs only when the message carries no
+// reply subject - there is nobody to answer.
+func onNoReplySubjectEdge(in ssa.Instruction) bool {
+	for _, e := range dominatingEdges(in) {
+		if describeCond(e) == `github.com/nats-io/nats.go.Msg.Reply==""` {
+			return true
+		}
+	}
+	return false
 }
 
 // panicModel answers: can an explicit panic instruction be reached in fn (or,
